@@ -220,6 +220,16 @@ func Gen(o GenOpts) *rapid.Generator[Script] {
 				}
 			}
 			s.Ops = append(s.Ops, Op{K: "D"})
+			if s.Ver == 1 && rapid.IntRange(0, 3).Draw(t, "readd") == 0 {
+				// v1: AddInput for a priority that is already configured replaces its channel by another
+				// full one: the set of priorities, the shares and the saturation stay as they were
+				for k, n := 0, rapid.IntRange(1, 2).Draw(t, "nreadd"); k < n; k++ {
+					m := h + rel + 1 + rapid.IntRange(0, 2).Draw(t, "readdmargin")
+					at := rapid.IntRange(0, len(s.Ops)-1).Draw(t, "readdat")
+					op := Op{K: "A", P: rapid.SampledFrom(ps).Draw(t, "readdp"), N: m, M: m}
+					s.Ops = append(s.Ops[:at], append([]Op{op, {K: "D"}}, s.Ops[at:]...)...)
+				}
+			}
 			// v1: input buffers smaller than the shares, kept full by blocked producers
 			small := s.Ver == 1 && rapid.IntRange(0, 2).Draw(t, "smallbuf") == 0
 			if small {
